@@ -69,6 +69,12 @@ def run(ck):
                 if fi.get(key) != fm.get(key):
                     nd += 1
                     dis.append((variant, key, ln, r, m))
+            # the bit-list model (BpmBits.v: the one the theorems are about) against the same implementation results
+            for key, mk in (('block', 'bblock'), ('b64', 'bb64')):
+                if key == 'b64' and mlen > 63: continue
+                if fi.get(key) != fm.get(mk):
+                    nd += 1
+                    dis.append((variant, mk, ln, r, m))
             # witness: implementation vs specification
             spec = {'block': fm.get('sed1024'), 'b64': fm.get('sed63'), 'b256': fm.get('sed255')}
             for key in keys:
